@@ -224,7 +224,6 @@ Qed.
 Theorem merge_meets_spec : forall c, c_fn c = FMerge -> in_domain c = true -> m_call c = s_call c.
 Proof.
   intros c F Hd. assert (Hb := Hd). split_dom Hb D2 D1 D0 D.
-  rewrite F in D. cbn in D. apply andb_true_iff in D as [T G].
   unfold m_call, s_call, m_merge. rewrite F.
-  rewrite <- (merge_no_ties _ _ _ _ T G). reflexivity.
+  now rewrite m_merge_is_reference.
 Qed.
